@@ -29,7 +29,9 @@ def gen_ops(rng, prog, n):
         ctx = rng.choice(["i", "i", "i", 0, 1, 2])
         r = rng.random()
         if r < 0.55:
-            ops.append(["call", f, a, ctx, rng.random() < 0.08, rng.random() < 0.05])
+            # (calls under with_prevent_further_calls are C16's: their RuntimeError is memoized under the ordinary key,
+            #  so they are not "calls with equal arguments" in the sense of this property)
+            ops.append(["call", f, a, ctx, rng.random() < 0.08, False])
             if rng.random() < 0.5:
                 ops.append(list(ops[-1]))                       # immediate repeat
         elif r < 0.72:
